@@ -29,13 +29,13 @@ class Stream:
         self.total = z3.simplify(self.off[m] + self.tail)
 
 
-def new_connection(E, total, end='eof', wfail=False, cap=4096):
-    sock = Sock(BV(0), total, end, (), False, wfail)
+def new_connection(E, total, end='eof', wfail=False, cap=4096, wslow=False):
+    sock = Sock(BV(0), total, end, (), False, wfail, (), wslow)
     return mk(E, 'MemcacheBinaryConnection', stream=sock, codec=new_codec(limit), buffer=Buf(WIRE, BV(0), BV(0), BV(cap)))
 
 
-def new_client(E, w, total, end='eof', wfail=False, sem=None):
-    conn = new_connection(E, total, end, wfail)
+def new_client(E, w, total, end='eof', wfail=False, sem=None, wslow=False):
+    conn = new_connection(E, total, end, wfail, wslow=wslow)
     cfg = mk(E, 'ClientConfig', item_memory_limit=limit, rx_timeout_secs=BV(60, 32), _wx_timeout_secs=BV(60, 32))
     if sem is None:
         sem = Ref(E.alloc(Agg('Semaphore', [BV(0)])))
@@ -69,17 +69,20 @@ def watch_handler(E):
     """record every call of BinaryHandler::handle_request (request variant + header of the request)"""
     f = E.fn('BinaryHandler', 'handle_request')
     E.watch = {f.name: lambda E, args: E.events.append(('handle', args[1].var, args[1]))}
+    # every response handed to the connection for writing (the value at the time of the call)
+    wf = E.fn('MemcacheBinaryConnection', 'write')
+    E.watch[wf.name] = lambda E, args: E.events.append(('conn.write', E.load(args[1])))
 
 
 class Run:
     pass
 
 
-def run_client(E, st, stream, end='eof', wfail=False, max_reads=4, policy=None, memory_limit=None, key_of=None):
+def run_client(E, st, stream, end='eof', wfail=False, max_reads=4, policy=None, memory_limit=None, key_of=None, wslow=False):
     E.max_reads = max_reads
     w = World(E, st, policy, memory_limit)
     w.map.key_resolver = key_of or (lambda E, k: 0)
-    ccell, sem = new_client(E, w, stream.total, end, wfail)
+    ccell, sem = new_client(E, w, stream.total, end, wfail, wslow=wslow)
     watch_handler(E)
     handle = E.fn('Client', 'handle')
     co = E.call(handle, [Ref(ccell)])
@@ -93,6 +96,7 @@ def run_client(E, st, stream, end='eof', wfail=False, max_reads=4, policy=None, 
     x.rpos = sock.rpos
     x.buffer = fld(E, conn_of(E, ccell), 'MemcacheBinaryConnection', 'buffer')
     x.handled = [e for e in E.events if e[0] == 'handle']
+    x.responses = [e[1] for e in E.events if e[0] == 'conn.write']
     x.sem = E.load(sem).fields[0]
     x.client_cell = ccell
     x.sem_ref = sem
